@@ -123,6 +123,9 @@ def ordered_params(op: dict) -> list[dict]:
 # ------------------------------------------------------------------------------------------- values
 STRS = ["a", "x y", "été", "A-1", "v.2_3", "q&r=s", "7"]
 PATH_STRS = ["a", "x y", "é", "A-1", "v.2_3", "7"]
+# F04h.  Only plain '/': "../x" is additionally collapsed by httpx's dot-segment normalisation (path traversal:
+# observed '/o/7/k/../x' -> '/o/7/x'), and '?', '#', '%' change httpx's URL parsing - all outside the model
+SLASH_STRS = ["a/b", "x/", "p/q/r"]
 INTS = [0, 7, -3, 12345]
 DATES = ["2020-01-02", "1999-12-31"]
 DTS = ["2020-01-02T03:04:05", "1999-12-31T23:59:59"]
@@ -136,6 +139,8 @@ def gen_scalar(rng, p: dict, in_path: bool) -> dict:
     if t == "str":
         if p["in"] in ("header", "cookie"):
             return {"t": "str", "v": rng.choice(HDR_STRS[:-1] if p["in"] == "cookie" else HDR_STRS)}
+        if in_path and p.get("slashy") and rng.random() < 0.5:
+            return {"t": "str", "v": rng.choice(SLASH_STRS)}
         return {"t": "str", "v": rng.choice(PATH_STRS if in_path else STRS + [""])}
     if t == "int":
         return {"t": "int", "v": rng.choice(INTS)}
@@ -196,7 +201,8 @@ def gen_op(rng, idx: int, flavour: str = "plain") -> dict:
         t = rng.choice(["str", "str", "int", "int", "date", "enum", "datetime", "bool"]) if flavour != "safe" \
             else rng.choice(["str", "int", "date"])
         params.append({"name": v, "in": "path", "required": True, "ty": t, "array": False,
-                       "level": rng.choice(["path", "op"]), **({"enum": rng.choice(list(ENUMS))} if t == "enum" else {})})
+                       "level": rng.choice(["path", "op"]), **({"enum": rng.choice(list(ENUMS))} if t == "enum" else {}),
+                       **({"slashy": True} if t == "str" and flavour != "safe" and rng.random() < 0.25 else {})})
     for n in rng.sample(Q_NAMES, rng.choice([0, 1, 2, 3, 4, 6])):
         t = rng.choice(TYS) if flavour != "safe" else rng.choice(["str", "int", "bool", "date", "datetime"])
         params.append({"name": n, "in": "query", "required": rng.random() < 0.3, "ty": t,
@@ -369,6 +375,7 @@ def observe(r):
                 a, _, b = part.partition("=")
                 cookies.append([a, b])
     return {"method": r.method, "path": unquote(p.decode("ascii")),
+            "segs": [unquote(x) for x in p.decode("ascii").split("/")],
             "query": [[a, b] for a, b in parse_qsl(q.decode("ascii"), keep_blank_values=True)],
             "headers": [[k, v] for k, v in r.headers.multi_items() if k not in OWN],
             "cookies": cookies, "ctype": media, "body": body}
@@ -481,6 +488,21 @@ def oracle(op: dict, a: dict, obs: dict) -> list[str]:
     want_path = "".join(s[1] if s[0] == "lit" else wire_text(given[("path", s[1])]) for s in op["path"])
     if r["path"] != want_path:
         fails.append(f"path {r['path']!r} != {want_path!r}")
+    else:
+        # each value must arrive inside its own path segment (a router splits the raw path at '/')
+        want_segs, cur = [], ""
+        for kind, x in op["path"]:
+            if kind == "lit":
+                parts = x.split("/")
+                cur += parts[0]
+                for more in parts[1:]:
+                    want_segs.append(cur)
+                    cur = more
+            else:
+                cur += wire_text(given[("path", x)])
+        want_segs.append(cur)
+        if r["segs"] != want_segs:
+            fails.append(f"path segments {r['segs']} != {want_segs} (a path value is not percent-encoded)")
 
     def multimap(pairs, lower=False):
         d: dict[str, list] = {}
@@ -712,9 +734,9 @@ def main(chk: Check, replay: dict | None = None) -> int:
     if codes is not None:
         inside = [c for c, k in zip(cases, codes) if k == 0]
         dist["cases_inside_C04_partial_hypotheses"] = len(inside)          # well typed, every guard holds, model = impl
-        dist["cases_not_well_typed_in_the_model"] = sum(1 for k in codes if k >> 8 & 1)
-        dist["cases_per_failed_guard"] = {f"F04{'abcdefg'[i - 1]}": sum(1 for k in codes if k >> i & 1) for i in range(1, 8)}
-    chk.decide(cases, codes, {1: "F04a", 2: "F04b", 3: "F04c", 4: "F04d", 5: "F04e", 6: "F04f", 7: "F04g"},
+        dist["cases_not_well_typed_in_the_model"] = sum(1 for k in codes if k >> 9 & 1)
+        dist["cases_per_failed_guard"] = {f"F04{'abcdefgh'[i - 1]}": sum(1 for k in codes if k >> i & 1) for i in range(1, 9)}
+    chk.decide(cases, codes, {1: "F04a", 2: "F04b", 3: "F04c", 4: "F04d", 5: "F04e", 6: "F04f", 7: "F04g", 8: "F04h"},
                "Corr.C04.run: Wire.call(model) = request captured under MockTransport (after decoding)")
     return chk.finish(
         TRUSTED,
